@@ -83,7 +83,7 @@ def sweep_enums(w, snap, r):
                     swept += 1
     irn = nodes[snap["ir"]]
     new = set()
-    for s, t, lab in irn.a["cfg"]:
+    for s, t, lab in sorted(irn.a["cfg"], key=repr):
         if lab is not None and r.random() < 0.6:
             num = r.choice(schema_numbers(w, "edge_type"))
             w.counters["enum:edge_type:%d" % num] += 1
@@ -235,7 +235,7 @@ def build_message(w, snap, r, style):
             ps = pm.sections.add()
             ps.uuid = ub(sn.uuid)
             ps.name = sn.a["name"]
-            ps.section_flags.extend(perm(_num(w, "flags", f) for f in sn.a["flags"]))
+            ps.section_flags.extend(perm(_num(w, "flags", f) for f in sorted(sn.a["flags"])))
             for bl in perm(kids(sl, ("bi",))):
                 bn = nodes[bl]
                 pb = ps.byte_intervals.add()
@@ -272,7 +272,7 @@ def build_message(w, snap, r, style):
                         pe.addr_addr.offset = s[2]
                         pe.addr_addr.symbol1_uuid = ub(nodes[s[3]].uuid)
                         pe.addr_addr.symbol2_uuid = ub(nodes[s[4]].uuid)
-                    pe.attribute_flags.extend(perm((_num(w, "se_attr", a) if isinstance(a, str) else a) for a in s[-1]))
+                    pe.attribute_flags.extend(perm((_num(w, "se_attr", a) if isinstance(a, str) else a) for a in sorted(s[-1], key=repr)))
         for yl in perm(kids(ml, ("sym",))):
             yn = nodes[yl]
             py = pm.symbols.add()
